@@ -1045,15 +1045,24 @@ pub fn leaf() -> impl Strategy<Value = Rx> {
 }
 
 fn substr() -> impl Strategy<Value = Rx> {
+    // repeated symbols over tiny alphabets matter: the suffix automaton only splits/clones states
+    // when a chunk recurs in a different context (e.g. "abbabc", "mississippi")
+    let small = prop_oneof![Just('a'), Just('b'), Just('c')];
     prop_oneof![
-        proptest::collection::vec(alpha_char(), 1..=5)
+        2 => proptest::collection::vec(alpha_char(), 1..=5)
             .prop_map(|v| Rx::Substr(SubKind::Chars, vec![v.into_iter().collect()])),
-        proptest::collection::vec(
+        4 => proptest::collection::vec(small.clone(), 4..=12)
+            .prop_map(|v| Rx::Substr(SubKind::Chars, vec![v.into_iter().collect()])),
+        2 => proptest::collection::vec(prop_oneof![Just('a'), Just('b'), Just('é'), Just(' ')], 4..=10)
+            .prop_map(|v| Rx::Substr(SubKind::Chars, vec![v.into_iter().collect()])),
+        3 => proptest::collection::vec(
             (prop_oneof![Just("ab"), Just("c"), Just("é"), Just("a"), Just("01")], prop_oneof![Just(" "), Just("-"), Just("\n")]),
-            1..=4
+            1..=7
         )
         .prop_map(|v| Rx::Substr(SubKind::Words, vec![v.into_iter().map(|(w, s)| format!("{}{}", w, s)).collect::<String>()])),
-        proptest::collection::vec(lit_string(2), 1..=4).prop_map(|v| Rx::Substr(SubKind::Chunks, v)),
+        2 => proptest::collection::vec(lit_string(2), 1..=4).prop_map(|v| Rx::Substr(SubKind::Chunks, v)),
+        3 => proptest::collection::vec(prop_oneof![Just("ab"), Just("c"), Just("é0"), Just("b")], 4..=9)
+            .prop_map(|v| Rx::Substr(SubKind::Chunks, v.into_iter().map(|s| s.to_string()).collect())),
     ]
 }
 
@@ -1078,7 +1087,7 @@ impl Default for RxOpts {
 
 pub fn rx_strategy(o: RxOpts) -> BoxedStrategy<Rx> {
     let lf = if o.substr {
-        prop_oneof![12 => leaf(), 1 => substr()].boxed()
+        prop_oneof![10 => leaf(), 2 => substr()].boxed()
     } else {
         leaf().boxed()
     };
